@@ -254,7 +254,7 @@ def c06(tier, seed, work):
                    store_consts(Buckets={"bkt1"}, KeySetName="a", Bodies={"x1"}, PartNums={1, 2, 5}, MaxList=3,
                                 PartBodies={"p1", "p2"}, MaxUploads=1, Ghosts=False,
                                 OpNames=MP_OPS - {"ListParts", "ListUploads", "PutObject"}),
-                   ALL4 + ["singlemem"], timeout=3000, **st)
+                   ALL4, timeout=3000, **st)
         tour_stage(rep, work, "mp-2k", "MC_Store",
                    store_consts(Buckets={"bkt1"}, KeySetName="nest2", Bodies={"x1"}, PartBodies={"p1"}, MaxUploads=2,
                                 Ghosts=False, OpNames=MP_OPS - {"ListParts", "ListUploads"}),
@@ -504,7 +504,7 @@ def c09(tier, seed, work):
     ev = 1 if thorough else 8
     # every request of the grammar against the versioned store with delete markers, a deleted current version and pending uploads
     fuzz_stage(rep, work, "grammar-mem", g, ["mem"], ["rich"], every=1)
-    fuzz_stage(rep, work, "grammar-fs-bolt", g, ["multimem", "bolt"], ["rich"], every=ev)
+    fuzz_stage(rep, work, "grammar-fs-bolt", g, ["multimem", "bolt", "singlemem"], ["rich"], every=ev)
     fuzz_stage(rep, work, "grammar-options", g, ["mem"], ["rich"], opts="hostbucket", every=ev * 2)
     fuzz_stage(rep, work, "grammar-auto", g, ["mem", "multimem"], ["plain"], opts="auto", every=ev * 2)
     fuzz_stage(rep, work, "grammar-noversioning", g, ["mem"], ["rich"], opts="noversioning", every=ev * 2)
